@@ -21,6 +21,7 @@ def body(r):
     worlds = [swarm.build_world(r.seed, 60000 + i, "ins", ["ins"], rr, p_fault=0.6, max_cycles=3) for i in range(n)]
     swarm.run_swarm(r, PROP, worlds, oracles=ORACLES)
     return r.finish(
+        minimise=swarm.make_minimiser(PROP, (), ORACLES),
         rule=("seeded swarm of complete importance-sampler runs (logit / no reparameterisation, strict / soft "
               "threshold, replace_all, constant / variable draws, with / without the i.i.d. set, save_log_q on/off, "
               "flow types), 60% with 1-3 kill-and-resume cycles. After update_evidence in every iteration, after "
